@@ -23,6 +23,11 @@ func c06Cfg() *DeclCfg {
 
 func c06Run(c *Ctx) {
 	r := c.R
+	if c.K%16 == 11 {
+		// required options registered through the public AddOption API
+		apiMiniRequired(c)
+		return
+	}
 	d := GenDecl(c.Sub("d"), c06Cfg())
 	if inHistTail(c, 42000, 1500000) {
 		// a required option registered after the parser was first used is enforced as well
